@@ -102,7 +102,9 @@ Bases == {Base(i, f, a, b) : i \in {0, 1, 2, 9, 10, 11}, f \in {0, 1, 2, 7, 8, 9
 Insert(t, p, c) == SubSeq(t, 1, p - 1) \o <<c>> \o SubSeq(t, p, Len(t))
 Replace(t, p, c) == [t EXCEPT ![p] = c]
 Delete(t, p) == SubSeq(t, 1, p - 1) \o SubSeq(t, p + 1, Len(t))
-EDITCH == {".", "-", "+", " ", "e", ",", "\n", "0", "x"}
+\* "u": a character outside ASCII that LOOKS like a digit or a full stop (superscript, circled, fullwidth full stop, ...; the
+\* driver rolls through them) -- not a digit of the grammar
+EDITCH == {".", "-", "+", " ", "e", ",", "\n", "0", "x", "u"}
 Edits(t) == {t} \cup {Insert(t, p, c) : p \in 1..(Len(t) + 1), c \in EDITCH}
                 \cup {Replace(t, p, c) : p \in 1..Len(t), c \in EDITCH} \cup {Delete(t, p) : p \in 1..Len(t)}
 ParseCases == StrUpTo(STRLEN) \cup UNION {Edits(t) : t \in Bases}
